@@ -38,6 +38,8 @@ MCNext ==
   \/ \E ps \in SUBSET (DOMAIN rlist) : ps # {} /\ RemoveIdxList(ps) /\ last' = <<"RemoveIdxList", ps>>
   \/ \E i \in DOMAIN U.R : RemoveInst(i) /\ last' = <<"RemoveInst", i>>
   \/ \E i, j \in DOMAIN U.R : i < j /\ RemoveInstList({i, j}) /\ last' = <<"RemoveInstList", {i, j}>>
+  \/ \E c \in 1..5, m \in {"reactant", "product", "all"} :                      \* net.remove_reaction(net.where_species(c, m))
+        WhereSpecies(c, m) # {} /\ RemoveIdxList(WhereSpecies(c, m)) /\ last' = <<"RemoveWhere", c, m>>
   \/ \E S \in AllowedChoices : SetAllowed(S) /\ last' = <<"SetAllowed", S>>
   \/ \E S \in RequiredChoices : SetRequired(S) /\ last' = <<"SetRequired", S>>
   \/ Reindex /\ last' = <<"Reindex">>
